@@ -135,7 +135,7 @@ Proof.
   inversion H; subst l' s. clear H. cbn [nodes free nblocks msize].
   pose proof (alloc_spec _ _ _ _ I Ea) as P. pose proof (alloc_fresh _ _ _ _ I Ea) as F.
   split; [|split; [reflexivity|exact F]].
-  split.
+  split; cbn [nodes free nblocks msize].
   - rewrite <- P. rewrite slots_app. cbn [slots map snd]. rewrite <- app_assoc. cbn [app].
     symmetry. etransitivity; [|apply Permutation_middle].
     constructor. rewrite app_assoc. fold (slots (firstn k (nodes l))). fold (slots (skipn k (nodes l))).
@@ -231,8 +231,8 @@ Proof.
     rewrite Hn in Hn2. destruct (firstn_S_mid k (nodes l) (v, s) Hk) as [E1 E2]. rewrite E1, E2 in Hn2.
     rewrite <- app_assoc in Hn2. cbn [app] in Hn2.
     split; [exact I2|]. split.
-    + rewrite Hn2. rewrite vals_app. cbn [vals map fst]. fold (vals (new ++ skipn k (nodes l))). rewrite vals_app.
-      unfold ins_at. unfold vals at 1 4. rewrite <- firstn_map, <- skipn_map. rewrite Hv. reflexivity.
+    + rewrite Hn2. unfold ins_at, vals in *. rewrite map_app. cbn [map fst]. rewrite map_app. rewrite Hv.
+      rewrite firstn_map, skipn_map. reflexivity.
     + cbn [obs_it]. rewrite Hn2. rewrite slot_rank_app; [apply firstn_length_le; exact Hk|].
       pose proof (nl_inv_nodup_nodes _ I2) as ND. rewrite Hn2 in ND. rewrite slots_app in ND. cbn in ND.
       apply NoDup_remove_2 in ND. intros Hin. apply ND. apply in_or_app. left. exact Hin.
@@ -247,7 +247,7 @@ Proof.
   inversion H; subst l' it. clear H. cbn [nodes free nblocks msize].
   pose proof (split_at _ _ _ _ Hs) as Hl.
   assert (Hf : length (firstn k (nodes l)) = k) by (apply firstn_length_le; lia).
-  split; [split|split].
+  split; [split|split]; cbn [nodes free nblocks msize].
   - destruct I as [P _]. rewrite <- P. rewrite Hl at 2. rewrite !slots_app. cbn [slots map snd].
     rewrite <- !app_assoc. apply Permutation_app_head. cbn [app].
     fold (slots rest). symmetry. etransitivity; [|apply Permutation_middle].
@@ -258,8 +258,7 @@ Proof.
     + rewrite app_nil_r. exact Hf.
     + rewrite slot_rank_app; [exact Hf|].
       pose proof (nl_inv_nodup_nodes _ I) as ND. rewrite Hl in ND. rewrite slots_app in ND. cbn in ND.
-      apply NoDup_remove_1 in ND. change (s' :: slots rest') with ([] ++ s' :: slots rest') in ND.
-      rewrite app_assoc in ND. apply NoDup_remove_2 in ND. rewrite app_nil_r in ND.
+      apply NoDup_remove_1 in ND. apply NoDup_remove_2 in ND.
       intros Hin. apply ND. apply in_or_app. left. exact Hin.
 Qed.
 
@@ -332,7 +331,7 @@ Proof.
   intros [P Hs]. unfold nl_sort. cbn [nodes free nblocks msize].
   assert (L : length (sort_vals key (vals (nodes l))) = length (slots (nodes l))).
   { rewrite sort_vals_length. rewrite vals_length, slots_length. reflexivity. }
-  split; [split|split].
+  split; [split|split]; cbn [nodes free nblocks msize].
   - unfold slots at 1. rewrite combine_snd by exact L. exact P.
   - rewrite combine_length. rewrite L. rewrite Nat.min_id. rewrite slots_length. exact Hs.
   - apply combine_fst. exact L.
